@@ -128,7 +128,7 @@ PROPS["C09"] = {
 }
 
 PROPS["C03"] = {
-    "modules": ["C03"], "required_theorems": ["C03_holds", "step03_enter", "step03_success", "step03_unsettled", "step03_noenter"], "monitors": ["C03"],
+    "modules": ["C03", "NonVacuity"], "required_theorems": ["C03_holds", "step03_enter", "step03_success", "step03_unsettled", "step03_noenter"], "monitors": ["C03"],
     "fields": ["ret", "pj", "pd", "sj"],
     "campaign": camp([("lifecycle", 500), ("rollback", 400), ("mixed", 300), ("damage", 200), ("chaos", 200)],
                      [("lifecycle", 8000), ("rollback", 6000), ("mixed", 4000), ("damage", 3000), ("chaos", 3000), ("signing", 3000), ("release", 2000)]),
@@ -158,7 +158,7 @@ PROPS["C13"] = {
 }
 
 PROPS["C11"] = {
-    "modules": ["C11"], "required_theorems": ["C11_holds", "step11_A", "step11_B", "Inv11_start", "urun_eq_updateCore", "crun_eq_checkCore"],
+    "modules": ["C11", "NonVacuity"], "required_theorems": ["C11_holds", "step11_A", "step11_B", "Inv11_start", "urun_eq_updateCore", "crun_eq_checkCore"],
     "monitors": ["C11"],
     "fields": ["ret", "pj", "pd", "sj", "sje"],
     "campaign": camp([("conc", 1500)], [("conc", 30000)]),
